@@ -211,6 +211,10 @@ async def _run_script(ctx, inv, ev, script):
             _, bus, cls, label = st[:4]
             kw = st[4] if len(st) > 4 else {}
             inv.dispatch(ctx.buses[bus], _mk_event(ctx, cls, label, **kw))
+        elif op == 'register':
+            # late registration of a monitored handler (between events, from ordinary code)
+            _, bus, pattern, name = st
+            _register(ctx, bus, pattern, name, [['ret', 'late']], {})
         elif op == 'idle':
             b = ctx.buses[st[1]]
             ctx.rec('AB', by=inv.id, ev='idle:' + st[1])
